@@ -630,6 +630,10 @@ func genCodec(o *Out, r *Rng, n int, tier string) {
 			}
 			el = el[:k]
 			follow, _ := genGoMsg(r, mty, tier).MarshalMsg(nil)
+			if r.Chance(40) {
+				// … or by a lone value that a decoder peeking for "nil options" or "one more element" would swallow
+				follow = [][]byte{{0xc0}, {0x80}, {0x90}, {0x00}, {0xc0, 0xc0}, {0xc2}, {0xa0}, {0xc4, 0x00}}[r.Intn(8)]
+			}
 			emitDec(o, r, "C13", mty, "m", append(nArr(el...).Enc(), follow...), prev)
 			continue
 		}
@@ -639,6 +643,14 @@ func genCodec(o *Out, r *Rng, n int, tier string) {
 		case 1:
 			emitDec(o, r, "C13", ty, "a", a, prev)
 		case 2: // concatenation: the decoder must stop at the boundary of the first value
+			if r.Chance(35) {
+				// … whatever single value or stray bytes follow (a nil, an empty map, an empty array, small ints)
+				tails := [][]byte{{0xc0}, {0x80}, {0x90}, {0x00}, {0xff}, {0xc0, 0xc0}, {0xc2}, {0xa0}}
+				tl := tails[r.Intn(len(tails))]
+				emitDec(o, r, "C13", ty, "v", append(append([]byte{}, v...), tl...), prev)
+				emitDec(o, r, "C13", ty, "a", append(append([]byte{}, a...), tl...), nil)
+				continue
+			}
 			w, _ := genGoMsg(r, ty, tier).MarshalMsg(nil)
 			emitDec(o, r, "C13", ty, "v", append(append([]byte{}, v...), w...), prev)
 			emitDec(o, r, "C13", ty, "a", append(append([]byte{}, a...), v...), nil)
